@@ -36,6 +36,11 @@ unsafe impl Sync for AuditMonitor {}
 
 pub const DEADLOCK_PANIC: &str = "VERIF-SELF-DEADLOCK";
 
+thread_local! {
+    static DUMP_BLOCKING: std::cell::Cell<bool> = std::cell::Cell::new(std::env::var("VERIF_DUMP_BLOCKING").is_ok());
+    static SEEN: RefCell<std::collections::HashSet<(&'static str, u32, bool)>> = RefCell::new(std::collections::HashSet::new());
+}
+
 fn short_class(c: &str) -> String {
     c.rsplit("::").next().unwrap_or(c).to_string()
 }
@@ -49,6 +54,13 @@ impl LockMonitor for AuditMonitor {
     fn request(&self, ev: &LockEvent) -> bool {
         let mut st = self.st.borrow_mut();
         st.requests += 1;
+        if ev.kind == LockKind::Block && DUMP_BLOCKING.with(|d| d.get()) {
+            let key = (ev.site.file(), ev.site.line(), ev.mode == LockMode::Write);
+            let newly = SEEN.with(|s| s.borrow_mut().insert(key));
+            if newly {
+                eprintln!("BLOCKSITE {}:{} {} {:?}", ev.site.file().rsplit('/').next().unwrap_or(""), ev.site.line(), short_class(ev.class), ev.mode);
+            }
+        }
         let conflict_sites: Vec<String> = st
             .held
             .iter()
